@@ -317,69 +317,82 @@ def run_partial(ctx):  # noqa: C901
             for inner_kind in ('optree', 'functools'):
                 if nesting == 0 and inner_kind == 'functools':
                     continue
-                idx += 1
-                if not ctx.mine(idx):
-                    continue
-                ctx.count()
-                a0, _ = gen.build(arg_dsl, U)
-                k0, _ = gen.build(kw_dsl, U)
-                case = {'args': arg_dsl, 'kw': kw_dsl, 'nesting': nesting, 'inner': inner_kind}
-                inner = target
-                inner_objs = []
-                for lvl in range(nesting):
-                    ia, _ = gen.build(arg_dsl, U)
-                    inner = (P if inner_kind == 'optree' else functools.partial)(inner, ia, tag=Leaf(500 + lvl))
-                    inner_objs.append(inner)
-                p = P(inner, a0, Leaf(1), kw=k0)
-                ctx.cls((gen.dsl_repr(arg_dsl), gen.dsl_repr(kw_dsl), nesting, inner_kind))
-                # never merged with the inner partial
-                if p.func is not inner and not (nesting and getattr(p.func, 'partial_func', None) is inner):
-                    ctx.violation('merged-with-inner', f'{PROP}:partial-merged', case, f'{p.func!r} vs {inner!r}')
-                if len(p.args) != 2 or p.args[0] is not a0 or set(p.keywords) != {'kw'}:
-                    ctx.violation('merged-args', f'{PROP}:partial-merged', case, f'{p.args!r} {p.keywords!r}')
-                for ns in ('', 'ns', 'unk'):
-                    r = outcome_of(lambda: optree.tree_flatten_one_level(p, namespace=ns))
-                    if r[0] != 'ok':
-                        ctx.violation('partial-one-level', f'{PROP}:partial-flatten', case, repr(r))
+                for outer_shape in ('args+kw', 'args', 'kw', 'none'):
+                    idx += 1
+                    if not ctx.mine(idx):
                         continue
-                    one = r[1]
-                    ok = (len(one.children) == 2 and one.children[0] is p.args and one.children[1] is p.keywords
-                          and tuple(one.entries) == ('args', 'keywords'))
-                    meta = one.metadata
-                    ok = ok and (meta is p.func)
-                    if not ok:
-                        ctx.violation('partial-one-level', f'{PROP}:partial-flatten', case, f'{one!r}')
-                    leaves, spec = optree.tree_flatten(p, namespace=ns)
-                    want = [*optree.tree_leaves(p.args, namespace=ns), *optree.tree_leaves(p.keywords, namespace=ns)]
-                    if spec.kind.name != 'CUSTOM' or len(leaves) != len(want) or any(x is not y for x, y in zip(leaves, want)):
-                        ctx.violation('partial-flatten', f'{PROP}:partial-flatten', case, f'{leaves!r} vs {want!r}')
-                    # inner optree partial's leaves are NOT leaves of the outer (func is metadata)
-                    if any(isinstance(x, Leaf) and x.i >= 500 for x in leaves):
-                        ctx.violation('inner-partial-leaked', f'{PROP}:partial-merged', case, repr(leaves))
-                # after tree_map the rebuilt partial calls the same function with the mapped arguments
-                mapping = {}
+                    partial_case(ctx, U, P, arg_dsl, kw_dsl, nesting, inner_kind, outer_shape)
 
-                def f(x):
-                    return mapping.setdefault(id(x), Leaf(900 + len(mapping)))
 
-                q = optree.tree_map(f, p)
-                if type(q) is not P:
-                    ctx.violation('map-type', f'{PROP}:partial-map', case, repr(q))
-                    continue
-                del CALLS[:]
-                res = outcome_of(lambda: q(Leaf(77), extra=Leaf(78)))
-                want_args = optree.tree_map(f, (a0, Leaf(1)))
-                if res != ('ok', 'called') or len(CALLS) != 1:
-                    ctx.violation('map-call', f'{PROP}:partial-map', case, f'{res!r} calls {len(CALLS)}')
-                    continue
-                args, kwargs = CALLS[0]
-                # innermost-first positional arguments of nested partials come first
-                outer_args = args[len(args) - 3: len(args) - 1]
-                if why_different(want_args[0], outer_args[0], U) or not isinstance(args[-1], Leaf) or args[-1].i != 77:
-                    ctx.violation('map-arguments', f'{PROP}:partial-map', case, f'{args!r} vs mapped {want_args!r}')
-                if 'kw' not in kwargs or why_different(optree.tree_map(f, k0), kwargs['kw'], U) or kwargs.get('extra') is None:
-                    ctx.violation('map-keywords', f'{PROP}:partial-map', case, repr(kwargs))
-                ctx.outcome(f'partial:nesting={nesting}')
+def partial_case(ctx, U, P, arg_dsl, kw_dsl, nesting, inner_kind, outer_shape):  # noqa: C901, PLR0912
+    ctx.count()
+    a0, _ = gen.build(arg_dsl, U)
+    k0, _ = gen.build(kw_dsl, U)
+    case = {'args': arg_dsl, 'kw': kw_dsl, 'nesting': nesting, 'inner': inner_kind, 'outer': outer_shape}
+    inner = target
+    inner_args = []
+    for lvl in range(nesting):
+        ia, _ = gen.build(arg_dsl, U)
+        inner_args.append(ia)
+        inner = (P if inner_kind == 'optree' else functools.partial)(inner, ia, tag=Leaf(500 + lvl))
+    pos = (a0, Leaf(1)) if 'args' in outer_shape else ()
+    kws = {'kw': k0} if 'kw' in outer_shape else {}
+    p = P(inner, *pos, **kws)
+    ctx.cls((gen.dsl_repr(arg_dsl), gen.dsl_repr(kw_dsl), nesting, inner_kind, outer_shape))
+    # never merged with the inner partial
+    if p.func is not inner and not (nesting and getattr(p.func, 'partial_func', None) is inner):
+        ctx.violation('merged-with-inner', f'{PROP}:partial-merged', case, f'{p.func!r} vs {inner!r}')
+    if len(p.args) != len(pos) or any(x is not y for x, y in zip(p.args, pos)) or set(p.keywords) != set(kws):
+        ctx.violation('merged-args', f'{PROP}:partial-merged', case, f'{p.args!r} {p.keywords!r}')
+    for ns in ('', 'ns', 'unk'):
+        r = outcome_of(lambda: optree.tree_flatten_one_level(p, namespace=ns))
+        if r[0] != 'ok':
+            ctx.violation('partial-one-level', f'{PROP}:partial-flatten', case, repr(r))
+            continue
+        one = r[1]
+        ok = (len(one.children) == 2 and one.children[0] is p.args and one.children[1] is p.keywords
+              and tuple(one.entries) == ('args', 'keywords') and one.metadata is p.func)
+        if not ok:
+            ctx.violation('partial-one-level', f'{PROP}:partial-flatten', case, f'{one!r}')
+        leaves, spec = optree.tree_flatten(p, namespace=ns)
+        want = [*optree.tree_leaves(pos, namespace=ns), *optree.tree_leaves(kws, namespace=ns)]
+        if spec.kind.name != 'CUSTOM' or len(leaves) != len(want) or any(x is not y for x, y in zip(leaves, want)):
+            ctx.violation('partial-flatten', f'{PROP}:partial-flatten', case, f'{leaves!r} vs {want!r}')
+        # the inner partial is metadata: none of ITS bound arguments may be a leaf of the outer node
+        if any(isinstance(x, Leaf) and x.i >= 500 for x in leaves):
+            ctx.violation('inner-partial-leaked', f'{PROP}:partial-merged', case, repr(leaves))
+    # after tree_map the rebuilt partial calls the same function with the mapped arguments
+    mapping = {}
+
+    def f(x):
+        return mapping.setdefault(id(x), Leaf(900 + len(mapping)))
+
+    q = optree.tree_map(f, p)
+    if type(q) is not P:
+        ctx.violation('map-type', f'{PROP}:partial-map', case, repr(q))
+        return
+    del CALLS[:]
+    res = outcome_of(lambda: q(Leaf(77), extra=Leaf(78)))
+    if res != ('ok', 'called') or len(CALLS) != 1:
+        ctx.violation('map-call', f'{PROP}:partial-map', case, f'{res!r} calls {len(CALLS)}')
+        return
+    args, kwargs = CALLS[0]
+    # expected call: inner bound args (innermost first, UNMAPPED: they are metadata), then the mapped outer
+    # args, then the call-time argument
+    want_args = [*inner_args, *(optree.tree_map(f, pos)), None]
+    ok = len(args) == len(want_args) and isinstance(args[-1], Leaf) and args[-1].i == 77
+    if ok:
+        for got, wantv in zip(args[:-1], want_args[:-1]):
+            if why_different(wantv, got, U):
+                ok = False
+    if not ok:
+        ctx.violation('map-arguments', f'{PROP}:partial-map', case, f'{args!r} vs expected {want_args[:-1]!r} + call arg')
+    want_kw = {'extra'} | set(kws) | ({'tag'} if nesting else set())
+    if set(kwargs) != want_kw or ('kw' in kws and why_different(optree.tree_map(f, k0), kwargs['kw'], U)):
+        ctx.violation('map-keywords', f'{PROP}:partial-map', case, repr(kwargs))
+    if nesting and not (isinstance(kwargs.get('tag'), Leaf) and kwargs['tag'].i >= 500):
+        ctx.violation('map-inner-keywords-rewritten', f'{PROP}:partial-map', case, repr(kwargs))
+    ctx.outcome(f'partial:nesting={nesting},{outer_shape}')
 
 
 def run_shard(ctx):
